@@ -17,7 +17,7 @@ namespace GoNeat.Driver
 open Lean GoNeat.Act GoNeat.Spec.Act
 
 /-- the registry description regenerated from the Go source -/
-def genRegistry : Registry :=
+def genRegistry : Desc :=
   { regWrites := Gen.Registry.registerWrites, modWrites := Gen.Registry.registerModuleWrites,
     lookups := Gen.Registry.lookups, registered := Gen.Registry.registered }
 
